@@ -5,10 +5,10 @@
   _subtract_path_flux(F, path)  -> (path with distinct edges, e.g. a simple path) every path edge reduced by the bottleneck
                                    flux m = min edge flux, the first minimal edge exactly 0, nothing negative appears on the
                                    path, every other entry and the caller's matrix unchanged
-  paths(...)                    -> given top_path's contract as an ASSUMED contract (Dijkstra search with a list queue:
-                                   outside the executor; bounded stand-in in bounded/C17.py): one flux per path, at most
-                                   num_paths of them, every recorded flux finite (search stopped at +-inf), caller's flux
-                                   matrix unchanged
+  paths(...)                    -> on top of top_path's PROVED contract (contracts/tpt_toppath.py): one flux per path, at most
+                                   num_paths of them, every recorded flux finite and positive (search stopped at +-inf), the
+                                   working matrix stays finite, the removal step's preconditions hold at every call, caller's
+                                   flux matrix unchanged
 """
 from pyvc.spec import Contract
 
@@ -112,34 +112,6 @@ def registry():
     return {c.key: c for c in (RemoveBottleneck(), SubtractPathFlux())}
 
 
-class TopPath(Contract):
-    """ASSUMED contract of top_path at its call site in paths() (the Dijkstra search itself is only checked by the bounded
-    driver against an exhaustive simple-path oracle): either the reported flux is infinite (no path / source is a sink), or the
-    path has at least one edge, visits states, repeats no edge, and the flux is the smallest flux on its edges and positive."""
-    key = F + 'top_path'
-
-    def requires(self, L, A, G):
-        Fm = A['net_flux']
-        return [('square-matrix', L.And(L.shape(Fm, 1) == L.shape(Fm, 0), L.shape(Fm, 0) >= 1))]
-
-    def result(self, e, st, args):
-        from pyvc.engine import Tup
-        plen = e.fresh('tp_len', 'int')
-        st.pc.append(plen >= 1)
-        return Tup([e.fresh_arr(st, 'tp_path', 'int', (plen,)), e.fresh('tp_flux', 'real')])
-
-    def ensures(self, L, A, N, R, G, V):
-        Fm = A['net_flux']
-        p, flux = R
-        n, m = L.shape(Fm, 0), L.len(p)
-        finite = L.And(flux != L.inf, flux != -L.inf)
-        return [('finite-flux-comes-with-a-real-path', L.implies(finite, L.And(
-            m >= 2, flux > 0,
-            L.forall(0, m, lambda k: L.And(p[k] >= 0, p[k] < n)),
-            L.forall2((0, m - 1), (0, m - 1), lambda a, b: L.implies(a < b, L.Or(p[a] != p[b], p[a + 1] != p[b + 1]))),
-            L.forall(0, m - 1, lambda k: Fm[p[k], p[k + 1]] >= flux))))]
-
-
 class Paths(Contract):
     key = F + 'paths'
     local_kinds = {'paths': 'count', 'fluxes': 'real', 'path': 'int'}
@@ -161,10 +133,15 @@ class Paths(Contract):
         Fm, src = A['net_flux'], A['sources']
         n = L.shape(Fm, 0)
         out = [('square-matrix', L.And(L.shape(Fm, 1) == n, n >= 1)),
-               ('sources-are-states', L.And(L.len(src) >= 1, L.forall(0, L.len(src), lambda k: L.And(src[k] >= 0, src[k] < n))))]
+               ('sources-are-states', L.And(L.len(src) >= 1, L.forall(0, L.len(src), lambda k: L.And(src[k] >= 0, src[k] < n)))),
+               ('sinks-are-states', L.And(L.len(A['sinks']) >= 1, L.forall(0, L.len(A['sinks']), lambda k: L.And(A['sinks'][k] >= 0, A['sinks'][k] < n)))),
+               ('fluxes-finite', L.forall2((0, n), (0, n), lambda i, j: L.And(Fm[i, j] < L.inf, Fm[i, j] > -L.inf)))]
         if not self.unlimited:
             out.append(('at-least-one-path-requested', A['num_paths'] >= 1))
         return out
+
+    def ghost(self, L, A):
+        return None, ([L.inf > 0] if L.sym else [])
 
     def ensures(self, L, A, N, R, G, V):
         ps, fl = R
@@ -181,6 +158,7 @@ class Paths(Contract):
             n = L.shape(V.old['net_flux'], 0)
             out = [('counter-counts-paths', L.And(cnt == L.len(ps), cnt == L.len(fl), cnt >= 0)),
                    ('working-matrix-keeps-its-shape', L.And(L.shape(Fm, 0) == n, L.shape(Fm, 1) == n)),
+                   ('working-matrix-stays-finite', L.forall2((0, n), (0, n), lambda i, j: L.And(Fm[i, j] < L.inf, Fm[i, j] > -L.inf))),
                    ('fluxes-finite-positive', L.forall(0, L.len(fl), lambda k: L.And(fl[k] > 0, fl[k] != L.inf)))]
             if not self.unlimited:
                 out.append(('below-the-requested-number', cnt < V.old['num_paths']))
@@ -193,4 +171,5 @@ class Paths(Contract):
 
 
 def registry_paths(scheme='subtract', unlimited=False):
-    return {c.key: c for c in (RemoveBottleneck(), SubtractPathFlux(), TopPath(), Paths(scheme, unlimited))}
+    from contracts.tpt_toppath import TopPathProved
+    return {c.key: c for c in (RemoveBottleneck(), SubtractPathFlux(), TopPathProved(), Paths(scheme, unlimited))}
